@@ -2,96 +2,31 @@
 //! election.rs as a whole (de-sugared, gen/deasync.py), against the environment models; stand-ins for
 //! tosub::SubsystemHandle, rand, utils::support_vote and the timestamp file.
 #![allow(dead_code, unused_imports, unused_variables, unused_mut, clippy::all)]
-use serde::{Deserialize, Serialize};
-use std::{
-    cmp::Ordering,
-    net::{IpAddr, SocketAddr},
-    path::Path,
-};
-use tokio::Now as _;
-
-include!("/verif/kani/cluster/gen/lib_types.rs");
-
-/// stubs (see kani/core/src/h/util.rs)
-pub(crate) fn stub_format(_args: core::fmt::Arguments<'_>) -> String {
-    String::new()
+macro_rules! model_prelude {
+    () => {
+        use tokio::Now as _;
+    };
 }
-pub(crate) struct NullHandler;
-impl miette::ReportHandler for NullHandler {
-    fn debug(&self, _e: &dyn miette::Diagnostic, _f: &mut core::fmt::Formatter<'_>) -> core::fmt::Result {
-        Ok(())
-    }
+macro_rules! csrc {
+    ("lib_types.rs") => { include!("/verif/kani/cluster/gen/lib_types.rs"); };
+    ("config_items.rs") => { include!("/verif/kani/cluster/gen/config_items.rs"); };
+    ("election.rs") => { include!("/verif/kani/cluster/gen/election.rs"); };
 }
-pub(crate) fn stub_capture_handler(_error: &(dyn miette::Diagnostic + 'static)) -> Box<dyn miette::ReportHandler> {
-    Box::new(NullHandler)
+macro_rules! aw {
+    ($e:expr) => { $e };
 }
-pub(crate) fn stub_mu_write<T>(this: &mut core::mem::MaybeUninit<T>, val: T) -> &mut T {
-    let p = this.as_mut_ptr();
-    unsafe {
-        p.write(val);
-        &mut *p
-    }
+pub type R<T> = T;
+pub fn ret<T>(t: T) -> T {
+    t
 }
-
-/// stand-in: no timestamp file
-pub fn load_millis_since_active(_path: &Path) -> Option<i64> {
-    None
+pub type PendingFut = tokio::Pending;
+pub fn pending_fut() -> PendingFut {
+    tokio::Pending
 }
-/// stand-in for the `rand` crate (only used by Config::election_timeout, which no harness calls)
-pub mod rand {
-    pub fn random<T: Default>() -> T {
-        T::default()
-    }
+pub fn mk_socket() -> tokio::net::UdpSocket {
+    tokio::net::UdpSocket
 }
-/// stand-in for tosub::SubsystemHandle (shutdown is never requested)
-pub mod tosub {
-    pub struct SubsystemHandle;
-    impl SubsystemHandle {
-        pub fn shutdown_requested(&self) -> tokio::Pending {
-            tokio::Pending
-        }
-        pub fn is_shut_down(&self) -> bool {
-            false
-        }
-    }
-}
-pub mod utils {
-    use crate::{VoteRequest, config::{Config, Peers}};
-    use miette::Result;
-    use tokio::net::UdpSocket;
-    /// stand-in for utils::support_vote: counts the votes this node has given
-    pub static mut VOTES_GIVEN: usize = 0;
-    pub fn support_vote(_vote: VoteRequest, _config: &Config, _socket: &UdpSocket, _peers: &Peers) -> Result<()> {
-        unsafe { VOTES_GIVEN += 1 };
-        Ok(())
-    }
-}
-pub mod config {
-    use super::PeerInfo;
-    use crate::{Priority, load_millis_since_active, rand};
-    use miette::{Context, IntoDiagnostic, Result, miette};
-    use std::{net::SocketAddr, path::PathBuf, time::Duration};
-    use tokio::Now as _;
-    use tracing::{debug, error, info, warn};
-    include!("/verif/kani/cluster/gen/config_items.rs");
-
-    #[cfg(kani)]
-    pub(crate) mod h {
-        use super::*;
-        include!("/verif/kani/cluster/src/h/c19_quorum.rs");
-    }
-}
-pub mod election {
-    use crate::tosub;
-    use tokio::Now as _;
-    include!("/verif/kani/cluster/gen/election.rs");
-
-    #[cfg(kani)]
-    mod h {
-        use super::*;
-        include!("/verif/kani/cluster/src/h/c19_election.rs");
-    }
-}
+include!("/verif/kani/cluster/src/body.rs");
 
 #[cfg(kani)]
 #[kani::proof]
